@@ -55,7 +55,7 @@ func fieldName(fn *ssa.Function, idx int) string {
 		return "?"
 	}
 	if s := structOf(fn.Signature.Recv().Type()); s != nil && idx < s.NumFields() {
-		return s.Field(idx).Name()
+		return fieldNameIn(fn.Signature.Recv().Type(), idx)
 	}
 	return "?"
 }
@@ -277,7 +277,7 @@ func recvNamed(fn *ssa.Function) *types.Named {
 
 // isMethodNamed: callee is a method called `name` on type n (n may be nil = any library type).
 func isMethodNamed(callee *ssa.Function, n *types.Named, name string) bool {
-	if callee == nil || callee.Name() != name {
+	if callee == nil || fnName(callee) != name {
 		return false
 	}
 	rn := recvNamed(callee)
